@@ -289,6 +289,35 @@ def rule_no_postprocess(ck, facts):
             ck.ok(R, key, {"fn": f.short})
 
 
+def rule_token_text(ck, facts):
+    R = "C14.token-text"
+    ck.rule(R, "in the printer, the text of a token / trivia token (result of `.text(source)`) reaches the document as one piece: it is not taken apart or rewritten (lines / split* / trim* / replace* / chars ...) on the way, so the inside of a multi-line comment or string is not re-laid-out by the layout engine")
+    from ..rules.chainwalk import taint
+    fmt = facts.crate(FMT)
+    REWRITE = ("lines", "trim", "trim_end", "trim_start", "trim_matches", "trim_end_matches", "trim_start_matches", "replace", "replacen", "split", "split_whitespace", "to_lowercase", "to_uppercase", "strip_suffix", "strip_prefix", "char_indices", "chars", "split_terminator", "split_once", "rsplit", "splitn", "bytes")
+    n = 0
+    for f in fmt.fns:
+        if f.kind == "promoted" or "::tests" in f.path or "cst_print" not in f.path:
+            continue
+        seeds = [t[6][0] for _, t in f.calls() if (callee(t) or "").split("::")[-1] == "text" and ("Token" in (callee(t) or "") or "token" in (callee(t) or "")) and t[6] is not None]
+        if not seeds:
+            continue
+        n += len(seeds)
+        T = taint(f, seeds)
+        bad = None
+        for b, t in f.calls():
+            c = callee(t) or ""
+            short = c.split("::")[-1]
+            if short in REWRITE and ("str" in c or "String" in c) and t[5] and t[5][0][0] in ("cp", "mv") and t[5][0][1][0] in T:
+                bad = (t, short)
+        key = "text|%s" % f.short.split("::")[-1]
+        if bad is None:
+            ck.ok(R, key, {"fn": f.short, "token_texts": len(seeds)})
+        else:
+            ck.bad(R, key, "%s takes a token's text apart with `%s` before it is put into the document: the pieces are joined again by the layout engine (line breaks pick up the current indentation), so the text of a multi-line block comment changes and grows with every formatting pass" % (f.short, bad[1]), f.where(bad[0]))
+    ck.floor(R, "token_text_reads", n, 3)
+
+
 def run(ck, facts, tier):
     pm = ParserModel(facts)
     ck.floor("C14.anchor", "fmt_bodies", len(facts.crate(FMT).fns), 100)
@@ -296,4 +325,8 @@ def run(ck, facts, tier):
     rule_comment_kinds(ck, facts)
     rule_trivia_sinks(ck, facts)
     rule_no_postprocess(ck, facts)
+    rule_token_text(ck, facts)
+    from . import c13
+
+    c13.rule_trivia(ck, facts, loss=False)  # the overwrite clause: trivia the formatter never gets to see
     ck.not_decided("AST equality of input and output, idempotence, behaviour at every line width (run-time properties of the layout engine)")
